@@ -93,6 +93,7 @@ struct SanState
     // signatures of the sanitizer reports seen since the last san_take()
     std::vector<std::string> pending;
     long total = 0;
+    std::map<std::string, long> ignored;   // UBSan reports seen while the property does not count them (informational)
 };
 inline SanState& san() { static SanState s; return s; }
 
@@ -224,6 +225,7 @@ struct Ctx
         bool f = true;
         for (auto& kv : witness) { w += (f ? "" : ",") + ("\"" + jesc(kv.first) + "\":" + std::to_string(kv.second)); f = false; }
         f = true;
+        for (auto& kv : san().ignored) counters[kv.first] += kv.second;
         for (auto& kv : counters) { c += (f ? "" : ",") + ("\"" + jesc(kv.first) + "\":" + std::to_string(kv.second)); f = false; }
         f = true;
         for (auto& kv : failsig) { fs += (f ? "" : ",") + ("\"" + jesc(kv.first) + "\":" + std::to_string(kv.second)); f = false; }
@@ -353,11 +355,11 @@ extern "C" void __ubsan_on_report(void)
     const char *kind = "", *msg = "", *file = ""; unsigned line = 0, col = 0; char* addr = nullptr;
     __ubsan_get_current_report_data(&kind, &msg, &file, &line, &col, &addr);
     vh::san().total++;
-    if (!vh::ubsan_counts()) return;
     // signature: kind + header file name (no line numbers: they drift)
     std::string f = file ? file : "";
     size_t p = f.rfind("/boost/gil/");
     std::string where = p == std::string::npos ? (f.rfind('/') == std::string::npos ? f : f.substr(f.rfind('/') + 1)) : f.substr(p + 11);
+    if (!vh::ubsan_counts()) { ++vh::san().ignored[std::string("ubsan_not_counted:") + kind + "@" + where]; return; }
     if (vh::san().pending.size() < 8) vh::san().pending.push_back(std::string("ubsan:") + kind + "@" + where);
 }
 #endif
